@@ -35,6 +35,7 @@ var matrix = []base{
 	{"ver=0.10.2.0&rm=1&nm=2&fm=2&ff=100", 3, 3, "v1 batch"},
 	{"rm=1&nm=2&bo=100", 3, 4, "backoff"},
 	{"rm=1&nm=2&mfaults=drop,leader-unavailable", 3, 4, "meta"},
+	{"rm=1&nm=3&np=1&fm=2", 2, 3, "nofreq close"},
 	{"closeany=1&rm=1&nm=2", 3, 4, "close"},
 	{"closeany=1&idem=1&rm=1&nm=2&fm=2&ff=100", 3, 4, "close idem"},
 }
@@ -61,7 +62,7 @@ func Scenarios(prop string) []gx.Sc {
 			}
 			q += "&icpt=2"
 		case "C12":
-			if !strings.Contains(m.tags, "close") {
+			if !strings.Contains(m.tags, "close") && !strings.Contains(m.tags, "nofreq") {
 				continue
 			}
 		case "C02":
